@@ -123,6 +123,22 @@ def run(ck):
             if abs(v - want) > tol:
                 ck.violation(f'{name} returned {v}, textbook value {want} (kind {kind}, K={K})', dict(metric=name, y=y.tolist(), P=P.tolist(), got=v, want=want),
                              key=json.dumps(dict(site='value', metric=name, kind=kind)))
+            # history: the same metric evaluated again on OTHER labels that live at the same address (a label buffer refilled in place between
+            # folds, wrapped again: same data pointer, shape, dtype) — the value is a function of the contents, whatever was evaluated before
+            if k % 2 == 0:
+                ybuf = y.copy()
+                try:
+                    Metric.from_name(name).compute(y_true_class=torch.from_numpy(ybuf), y_pred_proba=pt)
+                    y2 = np.roll(y, 1) if len(set(np.roll(y, 1).tolist()) ^ set(y.tolist())) == 0 and not np.array_equal(np.roll(y, 1), y) else y[::-1].copy()
+                    ybuf[:] = y2
+                    v2 = float(Metric.from_name(name).compute(y_true_class=torch.from_numpy(ybuf), y_pred_proba=pt))
+                    want2 = float(orc(y2, P))
+                    ck.count(f'{name}: refilled label buffer')
+                    if abs(v2 - want2) > tol:
+                        ck.violation(f'{name} returned {v2} on labels written into a reused buffer, textbook value {want2} (the previous evaluation used other labels at the same address; kind {kind}, K={K})',
+                                     dict(metric=name, y_first=y.tolist(), y=y2.tolist(), P=P.tolist(), got=v2, want=want2), key=json.dumps(dict(site='value-reused-buffer', metric=name)))
+                except Exception as e:
+                    ck.violation(f'{name} raised {e!r} on a reused label buffer', dict(metric=name, y=y.tolist(), P=P.tolist()), key=json.dumps(dict(site='raise', metric=name)))
             # perfect predictions score at least as well, in the declared direction, as these predictions
             R2 = np.full((n, K), 1e-6, dtype=np.float32); R2[np.arange(n), y] = 1.0 - (K - 1) * 1e-6
             vp = float(Metric.from_name(name).compute(y_true_class=yt, y_pred_proba=torch.tensor(R2)))
